@@ -3,6 +3,8 @@
 
 `extra` runs checks of specifications that go beyond the listed properties (not registered in MANIFEST.json):
   readcanary   readCanaryingBlobAccess (ReadCanary.tla, CanaryContractTrace.tla)
+  eviction     LRU / FIFO / RR replacement sets (Eviction.tla, EvictionDefs.tla)
+  sector       sector sharing of the block-device backed block (SectorWriter.tla, SectorContractTrace.tla)
 """
 import importlib, os, sys, time, traceback
 
